@@ -103,7 +103,7 @@ CHECKS = {
         "against a table of destination-centre -> source position computed with a fresh pyproj transformer; a high-curvature family (polar LAEA <-> lon/lat over tens of degrees, 90x90 / 70x120 "
         "sources, shifted destinations, three padding/align settings) probes the boundary-sampling path: there the 5-points-per-side envelope misses arc extrema (known findings C03-K1 / C03-K2, "
         "identified by environment tags computed from fresh pyproj; untagged cases still alarm).",
-   ref="5/C03", note=TB + "cross-CRS: PROJ is an environment table; separation margin is padding+1 (+align) pixels; known findings C03-K1/K2 (curved edges between boundary samples)"),
+   ref="5/C03", note=TB + "cross-CRS: PROJ is an environment table; separation margin is padding+1 (+align) pixels; known findings C03-K1/K2 (curved edges between boundary samples) and C03-K3/K4 (a pole of the lon/lat source inside the destination)"),
  "C10": dict(
    technique="TLA+ model of paste eligibility and of paste / nearest-neighbour images (ReprojPlan) checked by TLC; TLC performs the paste from the real plan and compares it with the GDAL nearest-neighbour image logged from rio_reproject",
    text="For every same-CRS pair of the C03 domain TLC checks on the real ReprojectInfo that paste-ability is reported only for scale+translation maps with an integer scale equal on both axes and a "
@@ -179,27 +179,30 @@ CHECKS = {
 
 # what the case domains gained after the seeded rounds / the mutation score (appended to the level text)
 GROWTH = {
+ "C01": " Round 5: collection operations with a single operand (overlapping parts, crossing lines); the same numeric code under two authorities (EPSG / ESRI 4812, IAU / EPSG 30165) in both construction orders.",
+ "C08": " Round 5: self-crossing rings as regions given in another CRS.",
+ "C09": " Round 5: Dataset-level spatial attributes on reprojection; control points off the integer pixel corners.",
  "C02": " Operation parameters take values on both sides of every default (zero / asymmetric pads, buffers in tenths of a pixel, zoom factors 1/2, 1, 2, 3), every crop spelling, crops by region "
         "(pixel / world geometry, bounding box, another GeoBox); an Observe action marks boxes whose views were READ before the operation (caches), and every operation runs under each call spelling "
         "(method / module-level function / defaulted argument).",
  "C03": " Added: rasters of thousands of pixels related by sub-tolerance rotations / shears (exact ring probing with a per-case denominator), near-tolerance residues between rasters tens of thousands "
-        "of pixels apart, lon/lat sources reaching the poles under kilometre tiles of polar projections.",
- "C04": " Block assembly is also run after an extract-and-overwrite history (results must not alias the blocks or the caller's inputs).",
- "C05": " Added: flat / thin images padded by whole tiles, irregular source chunking, destinations holding an earlier file, pixel patterns that decide the compressed tile sizes (constant / noise).",
+        "of pixels apart, lon/lat sources reaching the poles under kilometre tiles of polar projections. Round 5: polar rasters CONTAINING the pole against lon/lat windows next to it, both directions (the reverse direction exposes known findings C03-K3 / K4).",
+ "C04": " Block assembly is also run after an extract-and-overwrite history (results must not alias the blocks or the caller's inputs). Round 5: blocks of tiles spelled with a negative start reaching beyond the first tile.",
+ "C05": " Added: flat / thin images padded by whole tiles, irregular source chunking, destinations holding an earlier file, pixel patterns that decide the compressed tile sizes (constant / noise). Round 5: GDAL-style effort / tolerance options together with the compressions they belong to (LERC with a second codec).",
  "C06": " Configurations now include three write credits with a three-chunk middle partition, several sub-minimum partitions in front of a writer and partitions without any chunk (leading, trailing, "
         "adjacent, all); the dask phase runs ~3000 configurations in parallel.",
- "C07": " Added: collections of one member type / of one member / nested, the dateline option on geometries away from the dateline combined with densification.",
- "C11": " Added: a shape together with a numeric resolution, output pixels hundreds of source pixels wide with tolerances stricter than the default on sources whose edge lies just past a coarse grid line.",
- "C12": " Added: one grid tiled twice (every pair of 7 tilings, regular tile specs), sources wrapping the globe under regional rasters.",
- "C13": " Added: sibling reprojections with other fill parameters evaluated as ONE graph (dask.compute(a, b, c)).",
- "C14": " Added: one geobox cache shared by a box query and repeated polygon queries.",
+ "C07": " Added: collections of one member type / of one member / nested, the dateline option on geometries away from the dateline combined with densification. Round 5: edges more than 10 000 times the densification step (measured per path, vertex count compared with the model); geographic-to-geographic reprojection with a step.",
+ "C11": " Added: a shape together with a numeric resolution, output pixels hundreds of source pixels wide with tolerances stricter than the default on sources whose edge lies just past a coarse grid line. Round 5: tight mode must give the same grid whichever anchor is named; requests issued after the process has met 120 CRSs.",
+ "C12": " Added: one grid tiled twice (every pair of 7 tilings, regular tile specs), sources wrapping the globe under regional rasters. Round 5: queries without area (segments).",
+ "C13": " Added: sibling reprojections with other fill parameters evaluated as ONE graph (dask.compute(a, b, c)). Round 5: a larger last chunk; the same rasters lazily reprojected earlier with rotated chunk boundaries.",
+ "C14": " Added: one geobox cache shared by a box query and repeated polygon queries. Round 5: multi-part queries with one part in the empty corner of the other part's bounding box.",
  "C15": " Added: pixel patterns with whole uniform blocks (valid zeros, nodata, a constant).",
  "C16": " Added: sub-pixel offsets between boxes hundreds to tens of thousands of pixels apart.",
  "C17": " Emptiness is specified for regions reversed on any number of axes; index-typed results must BE integers (a float bound is an outcome, not rounded).",
  "C18": " Added: S3Prep (attempts to write one object in sequence, some abandoned: prep_client must reset the shared Variable unconditionally - the conditional variant yields the expected counterexample) "
         "and replays on a cluster where an abandoned attempt left its upload id behind; sink finalisation over an existing destination; 40 rounds on a REAL in-process dask.distributed cluster "
-        "(Client(processes=False): real Variable / Lock, the scheduler's own interleavings) validated by the same predicates.",
- "C19": " Added: tilings whose flattened chunk lists coincide (other cut, zero-sized chunks); every object law (equality, token, hash, pickle) is evaluated once more AFTER USE (all views read, caches filled).",
+        "(Client(processes=False): real Variable / Lock, the scheduler's own interleavings) validated by the same predicates. Round 5: the same object uploaded again on the same real cluster.",
+ "C19": " Added: tilings whose flattened chunk lists coincide (other cut, zero-sized chunks); every object law (equality, token, hash, pickle) is evaluated once more AFTER USE (all views read, caches filled). Round 5: systems without an EPSG code in five spellings; the PAIR matrix (equality, hashes) observed again after every object was used.",
  "C20": " Added: a magnitude dimension (world side x 2^mag) for fits and decompositions; values a power of two away from an integer on either side of the DOCUMENTED DEFAULT tolerances of snap_scale / snap_affine "
         "with the tolerances defaulted or explicit; defaults of Bin1D; align_up_pow2 of non-positive numbers.",
 }
